@@ -184,4 +184,42 @@ Section J.
     replace (teqb A_CAP_RETURN A_CAP_RETURN) with true by reflexivity. replace (teqb KW_CAPRETURN A_CAP_RETURN) with false by reflexivity.
     skip_action. reflexivity.
   Qed.
+  (* unknown keys are ignored: a key that is none of the reader's nine, appended to a transaction object that does not have it,
+     changes nothing *)
+  Definition reader_keys : list text := [K_DATE; K_TICKER; K_ACTION; K_AMOUNT; K_PRICE; K_FEES; K_TOTAL_VALUE; K_TAX_PAID; K_RATIO].
+  Definition unknown_key (k : text) : bool := forallb (fun K => negb (teqb K k)) reader_keys.
+
+  Lemma jlookup_app k fs k' v : teqb k k' = false -> jlookup k (fs ++ [(k', v)]) = jlookup k fs.
+  Proof.
+    intros H. induction fs as [|[k0 v0] r IH]; cbn [app jlookup]; [rewrite H; reflexivity|].
+    destruct (teqb k k0); [reflexivity|exact IH].
+  Qed.
+  Lemma has_key_app k fs k' v : has_key k (fs ++ [(k', v)]) = has_key k fs || teqb k k'.
+  Proof.
+    unfold has_key. induction fs as [|[k0 v0] r IH]; cbn [app jlookup].
+    - destruct (teqb k k'); reflexivity.
+    - destruct (teqb k k0); [reflexivity|exact IH].
+  Qed.
+  Lemma teqb_sym a : forall b, teqb a b = teqb b a.
+  Proof.
+    induction a as [|x a IH]; intros [|y b]; cbn [teqb]; try reflexivity. rewrite (N.eqb_sym (code x) (code y)), IH. reflexivity.
+  Qed.
+  Lemma has_key_cons k k0 v0 r : has_key k ((k0, v0) :: r) = teqb k k0 || has_key k r.
+  Proof. unfold has_key. cbn [jlookup]. destruct (teqb k k0); reflexivity. Qed.
+  Lemma has_dup_app fs k' v : has_dup (fs ++ [(k', v)]) = has_dup fs || has_key k' fs.
+  Proof.
+    induction fs as [|[k0 v0] r IH]; cbn [app has_dup]; [reflexivity|].
+    rewrite has_key_app, IH, has_key_cons, (teqb_sym k' k0).
+    destruct (has_key k0 r), (teqb k0 k'), (has_dup r), (has_key k' r); reflexivity.
+  Qed.
+
+  Theorem json_unknown_key_ignored fs k' v :
+    unknown_key k' = true -> has_key k' fs = false -> read_txn vc (JObj (fs ++ [(k', v)])) = read_txn vc (JObj fs).
+  Proof.
+    intros Hu Hn. unfold unknown_key, reader_keys in Hu. cbn [forallb] in Hu.
+    repeat (apply andb_true_iff in Hu; destruct Hu as [?H Hu]).
+    repeat match goal with H : negb _ = true |- _ => apply negb_true_iff in H end.
+    unfold read_txn. rewrite has_dup_app, Hn, orb_false_r. destruct (has_dup fs); [reflexivity|].
+    unfold req, read_op, pos_dec, req, opt_money. rewrite !jlookup_app by assumption. reflexivity.
+  Qed.
 End J.
